@@ -110,11 +110,13 @@ def mutateByExtFlag (p : Pod) : Option (Pod × Bool) :=
   | .spec old => if new = old then some (p, false) else some ({ p with annot := .spec new }, true)
 
 /-- handleCreate: the in-memory pod and `mutated` = the OR of the steps' flags (`none` = a step returned
-    an error).  The two later steps (multi-quota-tree affinity, device resources) do not touch the pods
-    in scope and report false. -/
-def handleCreate (k : Ranges) (gateSkipRes : Bool) (rand : Int) (ps : List Profile) (p : Pod) : Option (Pod × Bool) :=
+    an error).  `gateNoExt` = feature gate DisableExtendedResourceSpec (extendedResourceSpecMutatingPod returns
+    (false, nil) at once).  The two later steps (multi-quota-tree affinity, device resources) do not touch the
+    pods in scope and report false. -/
+def handleCreate (k : Ranges) (gateSkipRes gateNoExt : Bool) (rand : Int) (ps : List Profile) (p : Pod) : Option (Pod × Bool) :=
   if colocationFails true rand ps then none else
   let r1 := colocationMutate k true gateSkipRes rand ps p
+  if gateNoExt then some (r1.1, r1.2) else
   match mutateByExtFlag r1.1 with
   | none => none
   | some (p2, m2) => some (p2, r1.2 || m2)
@@ -123,11 +125,11 @@ def handleCreate (k : Ranges) (gateSkipRes : Bool) (rand : Int) (ps : List Profi
     submitted object: the pod that is STORED (`none` = the request is rejected with an error).
     `if !mutated { return admission.Allowed("") }`: without a flag no patch is sent and the submitted
     pod is stored, whatever happened to the in-memory copy. -/
-def handleMutating (k : Ranges) (e : Envelope) (gateSkipRes : Bool) (rand : Int) (ps : List Profile) (p : Pod) : Option Pod :=
+def handleMutating (k : Ranges) (e : Envelope) (gateSkipRes gateNoExt : Bool) (rand : Int) (ps : List Profile) (p : Pod) : Option Pod :=
   if shouldIgnore e then some p
   else if !e.hasObject then none                      -- Decoder.Decode: there is no content to decode
   else match e.op with
-    | .create => match handleCreate k gateSkipRes rand ps p with
+    | .create => match handleCreate k gateSkipRes gateNoExt rand ps p with
       | none => none
       | some (p2, mutated) => if mutated then some p2 else some p
     | .update => some p                               -- handleUpdate: (false, nil)
